@@ -2,6 +2,7 @@
 #![allow(dead_code, unused_imports)]
 use super::*;
 use crate::rules::path_value::Path;
+use crate::rules::MissingValueCheck;
 
 #[cfg(verif_replay)]
 #[path = "/verif/kani/shim.rs"]
